@@ -220,7 +220,7 @@ fn c10_jobs(thorough: bool) -> Vec<Job> {
 
 fn c14_jobs(thorough: bool) -> Vec<Job> {
     let mut out = vec![];
-    let g = |name: &str, admin: Option<u8>, initial: Vec<(u8, u64)>, n: u8, weights: Vec<u64>, removes: Vec<Vec<u8>>, full: Vec<u8>, blocks: u64| {
+    let g = |name: &str, admin: Option<u8>, initial: Vec<(u8, u64)>, n: u8, weights: Vec<u64>, removes: Vec<Vec<u8>>, full: Vec<u8>, n_hooks: u8, blocks: u64| {
         Job::G14(
             c14::GroupAdmin {
                 cfg: c14::GroupCfg {
@@ -230,13 +230,14 @@ fn c14_jobs(thorough: bool) -> Vec<Job> {
                     add_lists: c09::add_lists(n, 2, &weights),
                     remove_lists: removes,
                     full_callers: full,
+                    n_hooks,
                     hmax: H0 + blocks - 1,
                 },
             },
             None,
         )
     };
-    // remove lists over {A,B} plus a non-member C and a repeated address
+    // remove lists over {A,B} plus a non-member C, a repeated address and a reversed order
     let rem2 = || vec![vec![], vec![0], vec![1], vec![0, 1], vec![2], vec![0, 2], vec![0, 0], vec![1, 0]];
     let rem3 = || {
         let mut r = c09::subsets(3, 2);
@@ -245,20 +246,20 @@ fn c14_jobs(thorough: bool) -> Vec<Job> {
         r
     };
     if thorough {
-        out.push(g("C14/group/admin AD/init[]/members{A,B,C}/weights{0,1,2}/2 blocks", Some(0), vec![], 3, vec![0, 1, 2], rem3(), vec![0, 1], 2));
-        out.push(g("C14/group/admin AD/init[A:1,B:2]/members{A,B}/weights{0,1,2}/2 blocks", Some(0), vec![(0, 1), (1, 2)], 2, vec![0, 1, 2], rem2(), vec![0, 1, 2], 2));
-        out.push(g("C14/group/no admin/init[A:1,B:2]/members{A,B}/weights{0,1,2}/2 blocks", None, vec![(0, 1), (1, 2)], 2, vec![0, 1, 2], rem2(), vec![0, 1, 2], 2));
-    } else {
-        out.push(g("C14/group/admin AD/init[]/members{A,B}/weights{0,1,2}/1 block", Some(0), vec![], 2, vec![0, 1, 2], rem2(), vec![0, 1], 1));
-        out.push(g("C14/group/admin AD/init[A:1,B:2]/members{A,B}/weights{1,2}/2 blocks", Some(0), vec![(0, 1), (1, 2)], 2, vec![1, 2], rem2(), vec![0], 2));
-        out.push(g("C14/group/no admin/init[A:1,B:2]/members{A,B}/weights{0,1,2}/1 block", None, vec![(0, 1), (1, 2)], 2, vec![0, 1, 2], rem2(), vec![0, 1, 2], 1));
+        out.push(g("C14/group/admin AD/init[]/members{A,B,C}/weights{0,1,2}/3 hooks/2 blocks", Some(0), vec![], 3, vec![0, 1, 2], rem3(), vec![0, 1, 2], 3, 2));
+        out.push(g("C14/group/admin AD/init[A:1,B:2]/members{A,B,C}/weights{0,1,2}/2 hooks/3 blocks", Some(0), vec![(0, 1), (1, 2)], 3, vec![0, 1, 2], rem3(), vec![0, 1], 2, 3));
+        out.push(g("C14/group/no admin/init[A:1,B:2]/members{A,B}/weights{0,1,2}/3 hooks/2 blocks", None, vec![(0, 1), (1, 2)], 2, vec![0, 1, 2], rem2(), vec![0, 1, 2], 3, 2));
     }
-    let s = |admin: Option<u8>, tpw: u128, mb: u128, funds: Vec<u128>, amounts: Vec<u128>, blocks: u64| {
+    // (the quick configurations are part of the thorough tier too)
+    out.push(g("C14/group/admin AD/init[]/members{A,B,C}/weights{0,1,2}/2 hooks/2 blocks", Some(0), vec![], 3, vec![0, 1, 2], rem3(), vec![0, 1], 2, 2));
+    out.push(g("C14/group/admin AD/init[A:1,B:2]/members{A,B}/weights{0,1,2}/2 hooks/2 blocks", Some(0), vec![(0, 1), (1, 2)], 2, vec![0, 1, 2], rem2(), vec![0, 1, 2], 2, 2));
+    out.push(g("C14/group/no admin/init[A:1,B:2]/members{A,B}/weights{0,1,2}/2 hooks/2 blocks", None, vec![(0, 1), (1, 2)], 2, vec![0, 1, 2], rem2(), vec![0, 1, 2], 2, 2));
+    let s = |admin: Option<u8>, tpw: u128, mb: u128, funds: Vec<u128>, amounts: Vec<u128>, n_hooks: u8, blocks: u64| {
         Job::S14(
             c14::StakeAdmin {
                 cfg: c14::StakeCfg {
                     name: format!(
-                        "C14/stake/{}/tokens_per_weight {tpw}/min_bond {mb}/funds {:?}/{blocks} blocks",
+                        "C14/stake/{}/tokens_per_weight {tpw}/min_bond {mb}/funds {:?}/{n_hooks} hooks/{blocks} blocks",
                         if admin.is_some() { "admin AD" } else { "no admin" },
                         funds
                     ),
@@ -267,6 +268,7 @@ fn c14_jobs(thorough: bool) -> Vec<Job> {
                     min_bond: mb,
                     funds,
                     amounts,
+                    n_hooks,
                     hmax: H0 + blocks - 1,
                 },
             },
@@ -274,15 +276,14 @@ fn c14_jobs(thorough: bool) -> Vec<Job> {
         )
     };
     if thorough {
-        out.push(s(Some(0), 1, 1, vec![3, 2], vec![1, 2, 3], 2));
-        out.push(s(Some(0), 2, 2, vec![4, 2], vec![1, 2, 3], 2));
-        out.push(s(Some(0), 2, 3, vec![4, 2], vec![1, 2], 2));
-        out.push(s(None, 2, 1, vec![3, 2], vec![1, 2], 1));
-    } else {
-        out.push(s(Some(0), 1, 1, vec![2, 1], vec![1, 2], 1));
-        out.push(s(Some(0), 2, 2, vec![3, 2], vec![1, 2], 1));
-        out.push(s(None, 2, 1, vec![2, 1], vec![1, 2], 1));
+        out.push(s(Some(0), 1, 1, vec![4, 3], vec![1, 2, 3], 3, 2));
+        out.push(s(Some(0), 2, 2, vec![4, 3], vec![1, 2, 3], 3, 2));
+        out.push(s(Some(0), 3, 2, vec![5, 3], vec![1, 2, 3], 2, 3));
     }
+    out.push(s(Some(0), 1, 1, vec![3, 2], vec![1, 2, 3], 2, 2));
+    out.push(s(Some(0), 2, 2, vec![4, 2], vec![1, 2, 3], 2, 2));
+    out.push(s(Some(0), 2, 3, vec![4, 2], vec![1, 2], 2, 2));
+    out.push(s(None, 2, 1, vec![3, 2], vec![1, 2], 2, 1));
     out
 }
 
@@ -308,7 +309,7 @@ fn describe(prop: &str) -> (&'static str, &'static str, &'static str) {
             "closed configurations (finite funds, capped clock, zero-unbond offered once per pending zero claim) run to FIXPOINT; edge configurations to the stated depth",
         ),
         "C14" => (
-            "cw4-group: UpdateAdmin{None|AD|AD2}, AddHook/RemoveHook{H1,H2}, UpdateMembers (every add list of size <= 2 over members x weights, remove lists incl. overlap with add, a non-member, a repeated address; re-weight to the same value) by the admin, the other admin candidate and a stranger; AdvanceBlock. cw4-stake (native denom): the same admin/hook calls plus Bond/Unbond by two users.",
+            "cw4-group: UpdateAdmin{None|AD|AD2}, AddHook/RemoveHook{H1,H2(,H3)}, UpdateMembers (every add list of size <= 2 over members x weights, remove lists incl. overlap with add, a non-member, a repeated address; re-weight to the same value) by the admin, the other admin candidate and a stranger; AdvanceBlock. cw4-stake (native denom): the same admin/hook calls plus Bond/Unbond by two users.",
             "reference {admin, hooks, members} stepped on accepted calls of the reference admin. A call by anyone else, and every call once the admin is None, leaves the Admin, Hooks and (cw4-group) ListMembers queries unchanged; after an admin's call they equal the reference. Every accepted call whose effect changes some weight returns exactly one member_changed_hook message per hook registered at that time; every notification goes to a registered hook, carries no funds, names only addresses the call listed (the bonding sender for cw4-stake); folding its diffs per address in order: first old == weight before the call, each new == next old, last new == weight after the call; every address whose weight changed has an entry. cw4-stake: a bond/unbond that changes no weight sends no notification.",
             "all configurations run to FIXPOINT (single block or two blocks; finite weights, hooks, admins, funds)",
         ),
@@ -334,11 +335,23 @@ fn run(prop: &str, tier: &str) -> i32 {
     rep.oracle = oracle.into();
     rep.bounds = bounds.into();
     rep.assumptions = vec![
-        "every call is an atomic transaction on the real entry points compiled from /repo (a panic is a failed transaction)".into(),
+        "every call is an atomic transaction on the real entry points compiled from /repo (a panic is a failed transaction); after a refused call nothing is re-observed because the kernel commits nothing of a failed transaction".into(),
         "weights, amounts and funds come from small alphabets forced to collide plus the boundary values named in the alphabet, not all of u64/u128".into(),
         "addresses are MockApi bech32 addresses; block time advances 5 s per block".into(),
-        "C10/C09-stake: message routing, the bank and sub-message atomicity are the kernel's (cross-validated against cw-multi-test by kernel-diff)".into(),
     ];
+    match prop {
+        "C09" => rep.assumptions.push(
+            "the state oracle is a deterministic function of (world, reference): it is evaluated once per distinct state (memo keyed by the 128-bit state fingerprint), every transition still executes the real entry point; cw4-stake: the history is built from the weights the contract reported when they were current".into(),
+        ),
+        _ => {
+            rep.assumptions.push(
+                "fingerprint abstraction: the snapshot changelog/checkpoint namespaces (members__changelog, members__checkpoints, total__changelog, total__checkpoints) of the contract under test are left out of the state key; they are read only by at_height queries (C09's subject, not observed here) and by has_changelog, which only decides whether another changelog entry is written".into(),
+            );
+            rep.assumptions.push(
+                "message routing, the bank and sub-message atomicity are the kernel's (cross-validated against cw-multi-test by kernel-diff); C14 does not dispatch the returned messages, they are the observation".into(),
+            );
+        }
+    }
     let seed = mc::report::seed();
     let runs: Vec<RunStats> = js.par_iter().map(|j| j.run(&known, thorough, seed)).collect();
     rep.runs = runs;
